@@ -355,10 +355,24 @@ def install_dates(I, cls):
     dt_date.ns["__str__"] = _meth("__str__", m_isoformat)
     p_date.ns["__str__"] = _meth("__str__", m_isoformat)
     ext["datetime"] = {"date": dt_date, "datetime": dt_datetime, "timedelta": Builtin("timedelta", None)}
-    ext["calendar"] = {"monthrange": Builtin("calendar.monthrange", monthrange)}
+    def isleap(ctx, y):
+        ctx.assumed_ext.add("calendar.isleap / leapdays: proleptic Gregorian leap years")
+        return B.wrap(cal.leap(zi(y)))
+
+    def leapdays(ctx, y1, y2):
+        ctx.assumed_ext.add("calendar.isleap / leapdays: proleptic Gregorian leap years")
+        L = lambda y: y / 4 - y / 100 + y / 400
+        a, b = zi(y1) - 1, zi(y2) - 1
+        return B.wrap(L(b) - L(a))
+    ext["calendar"] = {"monthrange": Builtin("calendar.monthrange", monthrange), "isleap": Builtin("calendar.isleap", isleap),
+                       "leapdays": Builtin("calendar.leapdays", leapdays),
+                       "mdays": ListVal([0, 31, 28, 31, 30, 31, 30, 31, 31, 30, 31, 30, 31])}
 
 
 def iso_calendar(I, ctx, self):
+    if all(isinstance(x, int) for x in date_fields(self)):
+        from . import calmodel
+        return TupleVal(list(calmodel.isocalendar(*date_fields(self))))
     y, m, d = (B.zint(x) for x in date_fields(self))
     o = cal.ordinal(y, m, d)
     wd0 = cal.weekday0(o)
